@@ -75,7 +75,11 @@ func (e *Exec) callFunction(callee *ssa.Function, bindings, args []Value, guard 
 	}
 	con := e.CS.ByKey[key]
 	if con == nil {
-		panic(missingContract{key, e.Key})
+		if dc := e.defaultExtern(callee, key); dc != nil {
+			con = dc
+		} else {
+			panic(missingContract{key, e.Key})
+		}
 	}
 	all := append(append([]Value{}, args...), bindings...)
 	return e.applyContractFn(con, callee, all, len(args), guard, "")
@@ -941,4 +945,47 @@ func (e *Exec) unsharedCells() map[string][]string {
 		}
 	}
 	return out
+}
+
+// effect-free standard-library packages: a function of one of these packages that has no contract and takes
+// only scalar / string arguments (nothing through which it could reach module state) is treated as
+// "effectfree" with an arbitrary well-formed result. Every use is recorded (evidence: defaulted externs).
+var pureStdPkgs = map[string]bool{"time": true, "strings": true, "strconv": true, "math": true, "errors": true, "path/filepath": true, "path": true,
+	"unicode": true, "unicode/utf8": true, "math/bits": true, "os/user": true, "runtime": true}
+
+var defaultedExterns = map[string]bool{}
+
+func scalarOnly(t types.Type) bool {
+	switch u := t.Underlying().(type) {
+	case *types.Basic:
+		return u.Kind() != types.UnsafePointer
+	case *types.Struct:
+		for i := 0; i < u.NumFields(); i++ {
+			if !scalarOnly(u.Field(i).Type()) {
+				return false
+			}
+		}
+		return true
+	}
+	return false
+}
+
+func (e *Exec) defaultExtern(callee *ssa.Function, key string) *Contract {
+	if callee == nil || inModule(callee) || callee.Pkg == nil || !pureStdPkgs[callee.Pkg.Pkg.Path()] {
+		return nil
+	}
+	sig := callee.Signature
+	if sig.Recv() != nil && !scalarOnly(sig.Recv().Type()) {
+		return nil
+	}
+	for i := 0; i < sig.Params().Len(); i++ {
+		if !scalarOnly(sig.Params().At(i).Type()) {
+			return nil
+		}
+	}
+	defaultedExterns[key] = true
+	c := &Contract{Key: key, RawName: key, PkgPath: callee.Pkg.Pkg.Path(), Extern: true, Pure: true, Loops: map[int]*LoopSpec{},
+		Trusted: "defaulted: standard-library function with scalar arguments only, treated as effect-free with an arbitrary result"}
+	e.CS.ByKey[key] = c
+	return c
 }
